@@ -66,7 +66,7 @@ class Ranker:
                     if prot is not None and mem_total > 0:
                         ratio = F(swap_total, mem_total)
                         # the ratio is kept in float32 and protection goes through a double for nested cgroups
-                        out[s] = Tol(max(F(0), F(u) - ratio * math.floor(prot)), ratio * math.floor(prot) * F(1, 10**6) + 2)
+                        out[s] = Tol(max(F(0), F(u) - ratio * math.floor(prot)), ratio * math.floor(prot) * F(1, 10**6) + 2, fuzzy_equal=True)
                     else:
                         out[s] = Tol(u, 0)
                 else:
@@ -116,7 +116,7 @@ class Ranker:
                 # growth ratio is a float32
                 prot = view.protection(s)
                 etol = (abs(prot) * F(1, 10**11) + 2) if prot else F(0)
-                e_ = Tol(eff[s], etol)
+                e_ = Tol(eff[s], etol, fuzzy_equal=True)
                 out[s] = (e_ if size_ok else Tol(0), Tol(growth, growth * F(1, 10**6)) if grow_ok else Tol(0), e_)
             return out
         raise ValueError(self.plugin)
@@ -126,9 +126,12 @@ class Tol:
     """a key component with an absolute tolerance: differences within it are undecidable from outside
     (the implementation rounds there), exactly equal values fall through to the next component"""
 
-    def __init__(self, v, tol=0):
+    def __init__(self, v, tol=0, fuzzy_equal=False):
         self.v = F(v)
         self.tol = F(tol)
+        # fuzzy_equal: even two equal reference values may differ in the implementation (each went through its own rounding,
+        # e.g. a protection share computed in double), so equality does not decide anything either
+        self.fuzzy_equal = fuzzy_equal and self.tol > 0
 
     def __float__(self):
         return float(self.v)
@@ -144,6 +147,8 @@ def cmp_keys(a, b, eps=None):
     for x, y in zip(a, b):
         x, y = _as_tol(x), _as_tol(y)
         if x.v == y.v:
+            if x.fuzzy_equal or y.fuzzy_equal:
+                return 0
             continue
         if abs(x.v - y.v) <= max(x.tol, y.tol):
             return 0  # close but not identical: either order is acceptable -> tie for the whole key
